@@ -57,7 +57,8 @@ SYMPTOMS = [(1, "panic-or-bytes"), (2, "unsound"), (4, "order"), (8, "missed"), 
             (64, "sub-patterns-differ-from-compile-model"), (128, "atoms_ok-false-on-real-atoms"), (256, "pipeline-or-chain-model-differs"),
             (512, "hits-not-the-atom-occurrences-in-kernel-order"),
             (1024, "chain:pieces-differ-from-split-model"), (2048, "chain:atoms_ok-false-on-real-atoms"), (4096, "chain:hits-not-the-atom-occurrences-in-kernel-order"),
-            (8192, "chain:literal-piece-matches-differ-from-model"), (16384, "chain:regexp-piece-matches-not-the-reference's"), (32768, "chain:bookkeeping-model-differs")]
+            (8192, "chain:literal-piece-matches-differ-from-model"), (16384, "chain:regexp-piece-matches-not-the-reference's"), (32768, "chain:bookkeeping-model-differs"),
+            (65536, "byte-gap-reading-of-wide-chain")]
 
 # root-cause hints computed by the harness from the pattern's AST, most specific first (the defects behind
 # them are repaired: a case classified by one of them is a regression and is reported as a VIOLATION)
@@ -77,17 +78,18 @@ def classify(case):
     tags = case.get("tags") or []
     if any(int(s) + int(l) > n for s, l in rep):
         return "C01:scan:range-past-end-of-buffer:" + ("base64wide" if "base64wide" in tags else shape)
-    # the remaining known finding: a wide regexp split into a chain; some reported match is not a
-    # sequence of wide characters (odd length, or a byte at an odd offset that is not zero)
-    if "wide-regexp-split-at-large-gap" in tags and sym == "unsound":
-        data = bytes.fromhex(case.get("data_hex", ""))
-        def not_wide(s, l):
-            return l % 2 == 1 or any(b != 0 for b in data[s + 1:s + l:2])
-        if any(not_wide(int(s), int(l)) for s, l in rep):
-            return "C01:scan:wide-regexp-split-at-large-gap"
-    # the other remaining known finding: a chain piece with several possible ends before a bounded gap
+    # known finding: a wide regexp split into a chain; every reported match that is not genuine is a match of
+    # the reading the chain bookkeeping implements (pieces widened, gaps plain byte distances; decided in Coq
+    # by C01Check.wide_byte_gap_explains) and nothing else is wrong
+    if "wide-regexp-split-at-large-gap" in tags and sym == "unsound+byte-gap-reading-of-wide-chain":
+        return "C01:scan:wide-regexp-split-at-large-gap"
+    # known finding: one end per (piece, start) is kept for a chain piece and the gap is measured from it --
+    # a piece of variable length in front of a bounded gap (the shortest end for lazy / hex, the longest for greedy)
     if "chain-piece-variable-length-bounded-gap" in tags and sym == "missed":
         return "C01:scan:chain-piece-variable-length-bounded-gap"
+    # ... or, for a greedy regexp (the LONGEST end is kept), in front of any gap
+    if "chain-piece-variable-length-greedy" in tags and sym == "missed":
+        return "C01:scan:chain-piece-variable-length-greedy"
     for t in TAG_ORDER[:-1]:
         if t in tags:
             return f"C01:scan:{t}"
